@@ -247,3 +247,11 @@ impl PairTable {
         }
     }
 }
+
+#[cfg(feature = "verif-hooks")]
+impl PairTable {
+    /// Verification hook: `(lg_size, num_items)`.
+    pub fn verif_parts(&self) -> (u8, u32) {
+        (self.lg_size, self.num_items)
+    }
+}
